@@ -226,9 +226,13 @@ func send(v *srv, op Op) (accepted bool, status int, errText string, body *clien
 
 // observe reads the whole catalogue through the API: the task list, GET of every pool id
 // (which must agree with the list), the template list and the association keys.
-func observe(v *srv, extraIDs []string) (*observed, error) {
+//
+// GET of a task compiles its pipeline (the dominating cost of a step), so the GET sweep
+// covers the ids named by the request after a request and every id after a restart.
+func observe(v *srv, getIDs []string) (*observed, error) {
 	o := &observed{tasks: map[string]oTask{}, tmpls: map[string]string{}}
-	lt, err := v.cli.ListTasks(&client.ListTasksOptions{TaskOptions: client.TaskOptions{ScriptFormat: "raw"}})
+	lt, err := v.cli.ListTasks(&client.ListTasksOptions{TaskOptions: client.TaskOptions{ScriptFormat: "raw"},
+		Fields: []string{"type", "dbrps", "script", "status", "executing", "error", "vars", "template-id"}})
 	if err != nil {
 		return nil, fmt.Errorf("list tasks: %v", err)
 	}
@@ -239,14 +243,18 @@ func observe(v *srv, extraIDs []string) (*observed, error) {
 		o.tasks[t.ID] = fromClientTask(t)
 	}
 	ids := map[string]bool{}
-	for _, id := range allTaskIDs {
-		ids[id] = true
+	if getIDs == nil {
+		for _, id := range allTaskIDs {
+			ids[id] = true
+		}
+		for id := range o.tasks {
+			ids[id] = true
+		}
 	}
-	for _, id := range extraIDs {
-		ids[id] = true
-	}
-	for id := range o.tasks {
-		ids[id] = true
+	for _, id := range getIDs {
+		if id != "" {
+			ids[id] = true
+		}
 	}
 	for _, id := range sortedKeys(ids) {
 		g, err := v.cli.Task(v.cli.TaskLink(id), &client.TaskOptions{ScriptFormat: "raw"})
@@ -318,10 +326,10 @@ const hangBound = 60 * time.Second
 
 // observeQuiet observes until no enabled async-fail batch task is still on its way down
 // (the goroutine that waits for the task records the error as its last action).
-func observeQuiet(v *srv, candidates ...*model) (*observed, error) {
+func observeQuiet(v *srv, getIDs []string, candidates ...*model) (*observed, error) {
 	deadline := time.Now().Add(hangBound)
 	for {
-		o, err := observe(v, nil)
+		o, err := observe(v, getIDs)
 		if err != nil {
 			return nil, err
 		}
@@ -428,6 +436,10 @@ type runner struct {
 	steps []string // trace for messages
 	// the non-trivial rule
 	armed bool // an accepted rename / template update of an enabled task happened
+	// aroundSend, if set, is called right before (true) and right after (false) the
+	// request of a step is on the wire (the crash unit switches its snapshot hook)
+	aroundSend func(before bool)
+	accepted   bool // answer to the last request
 }
 
 func (r *runner) trace() string { return strings.Join(r.steps, "\n  ") }
@@ -459,7 +471,7 @@ func (r *runner) step(i int, op Op) bool {
 		}
 		r.m = r.m.clone()
 		r.m.restarted()
-		o, err := observeQuiet(r.v, r.m)
+		o, err := observeQuiet(r.v, nil, r.m)
 		if err != nil {
 			r.fail(obsSig(err), "after restart: %v", err)
 			return false
@@ -480,18 +492,34 @@ func (r *runner) step(i int, op Op) bool {
 
 	pre := r.m
 	post, applicable := pre.apply(op)
+	if r.aroundSend != nil {
+		r.aroundSend(true)
+	}
 	accepted, status, errText, body := send(r.v, op)
+	if r.aroundSend != nil {
+		r.aroundSend(false)
+	}
 	if status == 0 {
 		r.fail("harness/transport", "request %s failed without an HTTP status: %s", op, errText)
 		return false
 	}
 	r.steps = append(r.steps, fmt.Sprintf("%d: %s => %d %s", i, op, status, errText))
-	o, err := observeQuiet(r.v, pre, post)
+	getIDs := []string{op.ID, op.NewID}
+	if strings.HasPrefix(op.K, "t") {
+		getIDs = []string{}
+		for _, id := range sortedKeys(pre.tasks) {
+			if pre.tasks[id].Tmpl == op.ID && op.K == "tupdate" {
+				getIDs = append(getIDs, id)
+			}
+		}
+	}
+	o, err := observeQuiet(r.v, getIDs, pre, post)
 	if err != nil {
 		r.fail(obsSig(err), "after %s: %v", op, err)
 		return false
 	}
 	kind := sigKind(op)
+	r.accepted = accepted
 	if accepted {
 		cc.Label(opClass(op) + "/accepted")
 		if !applicable {
